@@ -1,7 +1,7 @@
 (* C12tab.v -- the finite sweeps over the generated tables (re-run on every check: vm_compute on closed terms).
    A failing sweep names the obligation that the current sources break. *)
 From Coq Require Import String List Bool. Import ListNotations. Open Scope string_scope.
-Require Import Registry Registryproof Attr Attrproof Gen_Registry Gen_Ctors C12defs.
+Require Import Registry Registryproof Attr Attrproof RegistrySpec Gen_Registry Gen_Ctors C12defs.
 
 (* ---------------------------------------------------------------- the finite sweeps (re-run on every check) *)
 
@@ -69,4 +69,12 @@ Proof. vm_compute. reflexivity. Qed.
 
 (* no constructor's guard was weakened (is not None -> truthiness) or otherwise changed against the reference *)
 Lemma sweep_guards_match_reference : forallb guard_matches_reference ctors = true.
+Proof. vm_compute. reflexivity. Qed.
+
+(* the live registry answers every tag of the reference with the reference's class (a dropped registration fails here) *)
+Lemma sweep_registry_reference : forallb reference_ok registry_reference = true.
+Proof. vm_compute. reflexivity. Qed.
+
+(* every Element subclass that declares a _tag is what the live registry gives for that tag, or a documented exception *)
+Lemma sweep_tagged_classes : forallb tagged_ok tagged_classes = true.
 Proof. vm_compute. reflexivity. Qed.
